@@ -39,6 +39,8 @@ for d in sorted(glob.glob('/verif/seeded/*/')):
     r=json.load(open(d+'result.json'))
     m=json.load(open(d+'meta.json')) if os.path.exists(d+'meta.json') else {}
     det=", ".join("%s (%s)"%(c, r["checks"][c]["first"]) for c in r["detected_by"]) or ("NOT APPLICABLE TO CURRENT TREE" if not r["applied"] else "**missed**")
+    if m.get("superseded"):
+        det="superseded: "+m["superseded"][:150]
     rows.append("| %s | %s | %s |" % (n, (m.get("needs_to_manifest") or "")[:110].replace("|","/"), det[:200].replace("|","/")))
 open('/verif/seeded/RESULTS.md','w').write("# seeded changes x checks (written by tools/mutant_eval_all.sh)\n\n| change | needs | detected by (first signature) |\n|---|---|---|\n"+"\n".join(rows)+"\n")
 PY
